@@ -109,8 +109,21 @@ class KB:
         return s
 '''
 
+def loop_src(name, e, k, indent='', self_=False):
+    """a Loop-e function: 4 + e body lines, distinct bytecode length per e"""
+    ls = ['def %s(%sn):' % (name, 'self, ' if self_ else ''), '    s = 0', '    for i in range(n):', '        s += i']
+    ls += ['    s += %d' % k] * e + ['    return s']
+    return ''.join(indent + l + '\n' for l in ls)
+
+
+# a package whose __init__ has its own functions and a sub-module with different ones:
+# `-m c20pkg.sub` must profile sub's functions, `-m c20pkg` the package's
+PKG_INIT = '# package of the C20 universe\n' + '#\n' * 70 + loop_src('pinit', 8, 8) + 'def pw(n):\n    r = pinit(n)\n    return r\n'
+PKG_SUB = '# sub-module of the C20 universe\n' + '#\n' * 100 + loop_src('ps0', 9, 9) + 'class KS:\n' + loop_src('pm', 10, 10, indent='    ', self_=True)
+
 CELL = '''\
 import c20m_a, c20m_b
+import c20pkg.sub
 def c0(n):
     s = 0
     for i in range(n):
@@ -145,7 +158,9 @@ UNIVERSE = {
     0: ('c0', 4), 1: ('c1', 5), 2: ('c2', 6), 3: ('w0', 2), 4: ('x_exit', 1), 5: ('x_kbd', 1), 6: ('x_err', 1),
     10: ('c20m_a.a0', 7), 11: ('c20m_a.a1', 8), 12: ('c20m_a.KA.am', 9),
     20: ('c20m_b.b0', 10), 21: ('c20m_b.wb', 2), 22: ('c20m_b.KB.bm', 11),
+    30: ('c20pkg.pinit', 12), 31: ('c20pkg.pw', 2), 32: ('c20pkg.sub.ps0', 13), 33: ('c20pkg.sub.KS.pm', 14),
 }
+METHODS = (12, 22, 33)
 
 
 class Sentinel:
@@ -162,6 +177,11 @@ def main():
         f.write(MOD_A)
     with open(os.path.join(root, 'c20m_b.py'), 'w') as f:
         f.write(MOD_B)
+    os.makedirs(os.path.join(root, 'c20pkg'))
+    with open(os.path.join(root, 'c20pkg', '__init__.py'), 'w') as f:
+        f.write(PKG_INIT)
+    with open(os.path.join(root, 'c20pkg', 'sub.py'), 'w') as f:
+        f.write(PKG_SUB)
     os.environ.setdefault('IPYTHONDIR', os.path.join(root, 'ipy'))
     from IPython.testing.globalipapp import get_ipython
     ip = get_ipython()
@@ -301,7 +321,7 @@ def main():
                     with contextlib.redirect_stdout(io.StringIO()):
                         for fid in iv.get('post', []):
                             fo = funcs[fid]
-                            if fid in (12, 22):
+                            if fid in METHODS:
                                 fo(None, 1)
                             else:
                                 fo(1)
